@@ -418,8 +418,9 @@ theorem rho_one_is_farthest {K : Type} [Field K] [LinearOrder K] [IsStrictOrdere
   unfold zRad at le
   exact hsqrt _ _ (add_nonneg (mul_self_nonneg _) (mul_self_nonneg _)) (add_nonneg (mul_self_nonneg _) (mul_self_nonneg _)) le
 
-/-- **values are zero outside the mask** (in a field; the model multiplies by the mask factor 0 as the code does, so at `Float` this needs
-finite radial/azimuthal factors — see the known finding KF-C11-nan-outside-mask), and the piston mode (j = 1) is the mask itself -/
+/-- **values are zero outside the mask**: the regenerated `Gen.zernCore` SELECTS with the mask (`np.where(mask, …, 0)` since 99180f6, formerly a product with
+the mask factor), so nothing evaluated outside the mask reaches the result — also at `Float` with non-finite coordinates there; the piston mode (j = 1)
+is the mask itself. (The residual known finding is the one-sample mask, where rho = 0/0 AT the masked sample.) -/
 theorem zero_outside_mask {K : Type} [Field K] (sqrtN : Nat → K) (cos sin : K → K) (j : Nat) (normalize : Bool) (rho theta : K) :
     zernAt sqrtN cos sin j normalize rho theta false = 0 ∧ zernAt sqrtN cos sin 1 normalize rho theta true = 1 := by
   constructor
